@@ -735,5 +735,6 @@ func GenOpenOpts(t *sim.Tape, cfg Config) OpenOpts {
 	o.Mlock = t.Chance(1, 8)
 	o.PreLoadFreelist = t.Chance(1, 2)
 	o.StrictMode = t.Chance(1, 8)
+	o.WrongPageSize = t.Chance(1, 6) // only ever applied to an existing file
 	return o
 }
